@@ -25,6 +25,10 @@ pub struct ScriptedRead {
     /// absolute positions at which the source reports temporary end-of-file (Ok(0)) until `release()` is called
     pub stops: Vec<usize>,
     stop_idx: usize,
+    /// absolute positions at which the source answers Ok(0) exactly once and delivers data again on the very next call
+    /// (a resumable source seen mid-call; unlike `stops`, which last until the next API call)
+    pub blips: Vec<usize>,
+    blip_idx: usize,
     pub poison: Poison,
     /// inject an I/O error at this read() call index (0-based, counted over the whole life)
     pub fault_at: Option<(usize, io::ErrorKind, String)>,
@@ -49,6 +53,8 @@ impl ScriptedRead {
             stops: vec![],
             stop_idx: 0,
             poison: Poison::None,
+            blips: Vec::new(),
+            blip_idx: 0,
             fault_at: None,
             call: 0,
             calls_this_api: 0,
@@ -72,6 +78,12 @@ impl ScriptedRead {
         stops.sort();
         stops.dedup();
         self.stops = stops;
+        self
+    }
+    pub fn with_blips(mut self, mut blips: Vec<usize>) -> Self {
+        blips.sort();
+        blips.dedup();
+        self.blips = blips;
         self
     }
     pub fn with_fault(mut self, call: usize, kind: io::ErrorKind, msg: String) -> Self {
@@ -140,6 +152,23 @@ impl ScriptedRead {
             }
             limit = limit.min(s - self.pos);
         }
+        // one-shot empty read?
+        while self.blip_idx < self.blips.len() && self.blips[self.blip_idx] < self.pos {
+            self.blip_idx += 1;
+        }
+        if self.blip_idx < self.blips.len() {
+            let b = self.blips[self.blip_idx];
+            if b == self.pos && b < self.data.len() {
+                self.blip_idx += 1;
+                let pe = buf.len().min(48);
+                self.fill_poison(&mut buf[..pe]);
+                if self.keep_log && self.log.len() < 4096 {
+                    self.log.push((buf.len(), 0));
+                }
+                return Ok(0);
+            }
+            limit = limit.min(b - self.pos);
+        }
         let want = if idx < self.chunks.len() { self.chunks[idx] } else { self.tail };
         let n = want.min(buf.len()).min(limit);
         // poison the 48 bytes that follow the delivered ones (a legal thing for a Read impl to do):
@@ -204,11 +233,13 @@ pub struct ScriptedWrite {
     pub flushes: usize,
     /// fail (ErrorKind::Other) once `data` would exceed this many bytes
     pub fail_after: Option<usize>,
+    /// the k-th flush() call (0-based) fails once with ErrorKind::Other although every write() took all its bytes
+    pub fail_flush_at: Option<usize>,
 }
 
 impl ScriptedWrite {
     pub fn new() -> Self {
-        ScriptedWrite { data: Vec::new(), limits: vec![], interrupt_every: 0, calls: 0, writes: 0, flushes: 0, fail_after: None }
+        ScriptedWrite { data: Vec::new(), limits: vec![], interrupt_every: 0, calls: 0, writes: 0, flushes: 0, fail_after: None, fail_flush_at: None }
     }
     pub fn with_limits(mut self, l: Vec<usize>) -> Self {
         self.limits = l;
@@ -242,7 +273,11 @@ impl io::Write for ScriptedWrite {
         Ok(n)
     }
     fn flush(&mut self) -> io::Result<()> {
+        let idx = self.flushes;
         self.flushes += 1;
+        if self.fail_flush_at == Some(idx) {
+            return Err(io::Error::new(io::ErrorKind::Other, "verif-flush-fault"));
+        }
         Ok(())
     }
 }
